@@ -1,6 +1,7 @@
 (* Extraction of the executable C09 models (ExtrOcamlBasic only). *)
 From Coq Require Import ExtrOcamlBasic.
 From Coq Require Extraction.
-From LJT Require Import model.SuspendCore model.SuspendMarker model.SuspendHuff model.SuspendEnc.
+From Coq Require Import ZArith.
+From LJT Require Import model.SuspendCore model.SuspendMarker model.SuspendHuff model.SuspendEnc model.SuspendRefine.
 Extraction Language OCaml.
-Extraction "x_c09.ml" run_markers minit default_procs resume_after_sos marker_unit cget run_scan hinit scan_blocks toy_run toy_pure.
+Extraction "x_c09.ml" run_markers minit default_procs resume_after_sos marker_unit cget run_scan hinit scan_blocks toy_run toy_pure run_refine qinit derive_dtbl Z.div Z.modulo.
